@@ -78,6 +78,15 @@ def configs(tier, seed):
     # builtin spectral model on a scaled (unit-converted) axis: simulate, then evaluate the objective repeatedly on the same inputs
     out.append({"name": "builtin-spectral-scaled-axis", "kind": "builtin-spectral",
                 "c07": {"name": "spectral-axis-scaled", "kind": "axis", "axis": "scaled"}})
+    # builtin coherent artifact: every parameter declared on the megacomplex (its own width) must enter the matrix that simulation
+    # and fit share, with plain, shifted and dispersed IRFs - a parameter the matrix ignores is reproduced at the generating values
+    # but can never be recovered from another start (C07's closed form per configuration is the specification)
+    for own in (False, True):
+        out.append({"name": f"builtin-artifact-dispersed-{'own' if own else 'irf'}width", "kind": "builtin-c07",
+                    "c07": {"name": f"artifact-order2-dispersed-{'own' if own else 'irf'}width", "kind": "artifact", "order": 2, "own": own,
+                            "indexdep": True, "disp": True, "nt": 1, "ng": 2}})
+    out.append({"name": "builtin-artifact-ownwidth", "kind": "builtin-c07",
+                "c07": {"name": "artifact-order3-ownwidth", "kind": "artifact", "order": 3, "own": True, "indexdep": False, "nt": 2}})
     if tier == "thorough":
         from harness import pipeline as pl
 
@@ -139,6 +148,10 @@ def run_config(cfg, rec):
     from symx.env import SymNP
     from glotaran.optimization.optimizer import Optimizer
 
+    if cfg.get("kind") == "builtin-c07":
+        from harness import c07_basis as c07
+
+        return c07.run_config(cfg["c07"], rec)
     if cfg.get("kind") == "builtin-spectral":
         from harness import c07_basis as c07
 
@@ -270,7 +283,7 @@ def float_case(cfg, env):
 
 
 def concrete(cfg, env):
-    if cfg.get("kind") == "builtin-spectral":
+    if cfg.get("kind") in ("builtin-spectral", "builtin-c07"):
         return {"ok": True}
     pen, calls, _, _, _ = float_case(cfg, c02.DefaultEnv(env))
     return {"y0": [float(x) for x in calls[0]["data"].flat]}
@@ -316,6 +329,12 @@ def _builtin_spectral_roundtrip():
 
 def replay(data):
     cfg = data["cfg"]
+    if cfg.get("kind") == "builtin-c07":
+        from harness import c07_basis as c07
+
+        with warnings.catch_warnings():
+            warnings.simplefilter("ignore")
+            return c07.replay({"cfg": cfg["c07"], "env": data.get("env", {})})
     if cfg.get("kind") == "builtin-spectral":
         from harness import c07_basis as c07
 
